@@ -58,7 +58,14 @@ func c08RandomSpec(c *core.Ctx, pattern string, dns bool) *gen.Spec {
 func c08Vary(c *core.Ctx, x *gen.Spec, dns bool) (y *gen.Spec, aspect string) {
 	for try := 0; try < 20; try++ {
 		y = x.Clone()
-		switch c.Rng.Intn(12) {
+		switch c.Rng.Intn(13) {
+		case 12:
+			// A modifier of the filter syntax that this version does not
+			// support (such a rule is rejected today, and the relation is
+			// vacuous; once support is added, the value is part of the rule's
+			// identity like any other).
+			y.Extra = []string{[]string{"to=ads.com", "to=ads.com|other.org", "method=get", "header=x-test", "app=org.example"}[c.Rng.Intn(5)]}
+			aspect = "future-modifier"
 		case 0:
 			if len(x.DocOpts) > 0 || x.Stealth || x.Popup {
 				continue
